@@ -39,4 +39,10 @@ inductive MTime
 /-- `i64::try_from(n).unwrap_or(i64::MAX)` -/
 def toI64OrMax (n : Nat) : Int := if n ≤ 9223372036854775807 then (n : Int) else 9223372036854775807
 
+/-- `Path::parent` on a relative path kept as its components: `None` for the empty path, else the path without its last component -/
+def parentOf (p : List String) : Option (List String) := if p.isEmpty then none else some p.dropLast
+
+/-- `BTreeSet::insert` on a set kept as a duplicate-free list -/
+def setIns {α : Type} [DecidableEq α] (s : List α) (x : α) : List α := if x ∈ s then s else s ++ [x]
+
 end Copia.ScanSupport
